@@ -135,6 +135,23 @@ def _cases(tier, rng):
         a = aid(rng.randrange(4), 0, rng.random() < .5, rng.random() < .3)
         variants = equivalent_routes(rng, logical, each, each_c)
         yield ('(rmulti [%s])' % ' '.join(routed_scenario([(a, routes)], steps) for _, routes in variants), 'routes-x%d' % len(variants))
+    # the routes must also agree on the per-binding start-up rule (a binding whose input is held when the context is created
+    # stays silent until released): several `to` calls, one tuple, a slice - created while one of the inputs is down
+    for _ in range(24 if tier == 'thorough' else 8):
+        ids = Ids()
+        n = rng.randint(2, 4)
+        ks = rng.sample([0, 1, 2, 3], n)
+        logical = [(key(k), [(ids.next(), PROBE)], []) for k in ks]
+        heldk = [k for k in ks if rng.random() < .5] or [ks[-1]]
+        steps = [sop(spawn(0, [])), frame(raw(pads=[pad(0)])), frame(raw(keys=heldk, pads=[pad(0)])), sop(insert(0, 0))]
+        cur = set(heldk)
+        for _ in range(rng.randint(5, 8)):
+            steps.append(frame(raw(keys=sorted(cur), pads=[pad(0)]), rand_dt(rng)))
+            for k in ks:
+                if rng.random() < .3: cur ^= {k}
+        a = aid(rng.randrange(4), 0, False, rng.random() < .3)
+        variants = _equivalent_routes(rng, logical, [])
+        yield ('(rmulti [%s])' % ' '.join(routed_scenario([(a, routes)], steps) for _, routes in variants), 'routes-created-while-held')
     # binding an action a second time extends it in place: P (consuming), Q (same key, listens), then P again with one more
     # input; whether Q sees the key depends on P keeping its place in the evaluation order
     for _ in range(40 if tier == 'thorough' else 10):
@@ -225,7 +242,7 @@ STAGES = [dict(name='routes', mode='app', coq='Check.C19m', noshrink=True, cases
                exhaustive={'thorough': False, 'quick': False},
                rule='(a) for each of 25 (quick) / 120 (thorough) generated logical binding sequences of 1-4 inputs (with own scripted modifiers/conditions and 0-2 modifiers attached to every element), the action is '
                     'built through every route of the menu that denotes it - repeated to() calls, flat tuple, nested tuples, mixed calls, with_modifiers_each over tuples, slices, &Vec, arrays, tuples of slices - all through '
-                    'the crate\'s own InputBindSet impls, and run on the same random script; every trace must equal the model\'s run of the logical sequence. with_conditions_each (once, twice, combined with with_modifiers_each) over elements that already carry conditions; an action bound, others bound, then the first bound again with one more input while a later action listens on its consumed key. (b) Cardinal built from four arbitrary distinct keys in every '
+                    'the crate\'s own InputBindSet impls, and run on the same random script; every trace must equal the model\'s run of the logical sequence. with_conditions_each (once, twice, combined with with_modifiers_each) over elements that already carry conditions; an action bound, others bound, then the first bound again with one more input while a later action listens on its consumed key; routes compared on contexts created while one of the inputs is held. (b) Cardinal built from four arbitrary distinct keys in every '
                     '(quick: every 4th) assignment, from gamepad buttons, from two-key Vecs per direction, on all output types; Bidirectional; both sticks; the built-in WASD / arrow / d-pad sets; every subset of directions pressed. (c) Cardinal and Bidirectional whose fields are decorated bindings (own modifiers / conditions), *_each wrappers over slices and tuples, mouse wheel / motion or swizzled keys (two-dimensional values on the negative side), each compared with the hand-written sequence of the documentation. '
                     'non-trivial = some action fires; distinct = distinct case text')]
 CLAUSES = {1: 'internal: a route of the generator does not denote the logical binding sequence of the case (Model/Bind.denote)', 2: 'a preset does not match the compass: expected (east - west, north - south) / (positive - negative)', 3: 'two construction routes that denote the same binding sequence (or binding an action once vs. twice) behave differently',
